@@ -10,6 +10,7 @@ from reamber.osu.OsuMapMeta import OsuMapMeta
 from reamber.osu.OsuNoteMeta import OsuNoteMeta
 from reamber.osu.OsuTimingPointMeta import OsuTimingPointMeta
 from reamber.osu.lists.OsuBpmList import OsuBpmList
+from reamber.osu.OsuSampleSet import OsuSampleSet
 from reamber.osu.lists.OsuSampleList import OsuSampleList
 from reamber.osu.lists.OsuSvList import OsuSvList
 from reamber.osu.lists.notes.OsuHitList import OsuHitList
@@ -34,10 +35,15 @@ class OsuMap(Map[OsuNoteList, OsuHitList, OsuHoldList, OsuBpmList], OsuMapMeta):
     def reset_samples(self, of_notes=True, of_samples=True) -> None:
         """Resets all hitsounds and samples"""
         if of_notes:
-            for n in self.hits:
-                n.reset_samples()
-            for n in self.holds:
-                n.reset_samples()
+            # Iterating yields copies of the rows, so reset the columns themselves
+            for notes in (self.hits, self.holds):
+                notes.df = notes.df.assign(
+                    hitsound_set=OsuSampleSet.AUTO,
+                    sample_set=OsuSampleSet.AUTO,
+                    addition_set=OsuSampleSet.AUTO,
+                    custom_set=0,
+                    hitsound_file="",
+                )
 
         if of_samples:
             self.samples = OsuSampleList([])
